@@ -34,6 +34,26 @@ CHECKS = {
         "note": TB + "Display/parse away from the listed windows is outside the claim; Current(u64::MAX).next() is outside the domain.",
         "technique": "Kani/CBMC bounded model checking of the real functions, full-width symbolic u64, SAT (cadical)",
     },
+    "C01": {
+        "text": "PARTIAL claim (kernel K1 of DESIGN.md): bounded model checking of seglog's real Writer (append / set_len / flush_writer / sync, with the real "
+                "std BufWriter) over a modelled file: after every step the physical position (file cursor + buffered bytes) equals the logical write offset, "
+                "sync is followed by fsync before the flushed offset moves, and a fresh reader finds every acknowledged record byte-identical at the offset "
+                "append() returned - including the append that follows a rolled-back (set_len) half-written transaction, the history named in the property. "
+                "Op scripts and record lengths are enumerated shapes; all record contents are symbolic. The database layer above (thread pools, indexes, "
+                "rollover sync watermark, reopen) is outside the claim.",
+        "note": TB + "the POSIX file model (harness/seglog/fmodel.rs: no short writes, no IO errors); cheap linear checksum instead of CRC32 here (CRC is C17); "
+                "Io error payloads replaced by a unit type; WRITE_BUF_SIZE scaled 16 KiB -> 16 so both BufWriter paths are reachable with 12-byte records.",
+        "technique": "Kani/CBMC bounded model checking of the real seglog Writer over a symbolic file model",
+    },
+    "C18": {
+        "text": "Bounded model checking of seglog's real Reader / ReadAheadBuf / Iter and Writer over a modelled file shared between them: every read through a "
+                "LONG-LIVED reader (cache filled earlier, with arbitrary bytes beyond the then-flushed offset standing for a writer in mid-write) must equal a "
+                "specification-level read of the disk below the flushed offset as they are NOW; unflushed bytes are never served; truncation and header "
+                "replacement are observed. Scenario scripts and record lengths are enumerated shapes; record contents, headers and the unflushed tail are symbolic.",
+        "note": TB + "the POSIX file model; scaled buffer constants (READ_AHEAD_SIZE 32, PAGE_SIZE 8, OPTIMISTIC_DATA_SIZE 4, WRITE_BUF_SIZE 16); cheap linear checksum; "
+                "reader and writer interleave at operation granularity (a reader's single atomic load of the flushed offset is not split); SC atomics.",
+        "technique": "Kani/CBMC bounded model checking of the real seglog Reader/Writer over a symbolic file model, differential against a reference reader",
+    },
 }
 
 _PENDING = "check not built yet in this tree (planned in DESIGN.md §3); not claimed until its harness exists and passes"
